@@ -51,6 +51,13 @@ type HTTP struct {
 	Req                     *Req
 	Resps                   []Resp
 }
+// Group: a URL directive with its own Tags and path-less methods (always rendered grouped).
+type Group struct {
+	Path    string
+	Tags    []string
+	Methods []*HTTP // Path of each method must equal the group's path
+}
+
 type RPCMethod struct {
 	Name, Ann, Desc string
 	Tags            []string
@@ -61,7 +68,7 @@ type RPC struct {
 	Methods []RPCMethod
 }
 
-// Doc: JSIGHT 0.3 followed by the blocks in order. Block types: *Info *Server *Tag *Type *Enum *HTTP *RPC.
+// Doc: JSIGHT 0.3 followed by the blocks in order. Block types: *Info *Server *Tag *Type *Enum *HTTP *Group *RPC.
 type Doc struct {
 	Blocks []any
 	size   int
@@ -167,6 +174,16 @@ func (d *Doc) ToTree(c Chooser) *dt.File {
 				}
 			}
 			i = j
+		case *Group:
+			u := dt.N("URL", b.Path).WithID("url:" + b.Path)
+			if len(b.Tags) > 0 {
+				u.Add(dt.N("Tags", b.Tags...).WithID("url:" + b.Path + ".tags"))
+			}
+			for _, h := range b.Methods {
+				u.Add(httpNode(h, true, c, nHTTP))
+				nHTTP++
+			}
+			f.Nodes = append(f.Nodes, u)
 		case *RPC:
 			u := dt.N("URL", b.Path).WithID("url:" + b.Path)
 			u.Add(dt.N("Protocol", "json-rpc-2.0").WithID("url:" + b.Path + ".protocol"))
@@ -360,7 +377,25 @@ func (d *Doc) Expected() *O {
 	}
 	// path variable pieces: (prefix, name) -> property schema
 	pieces := map[pathParam]*S{}
+	// groups contribute their methods; a method without own Tags takes the group's
+	type flatHTTP struct {
+		h        *HTTP
+		fallback []string
+	}
+	var blocks []any
 	for _, b := range d.Blocks {
+		if g, ok := b.(*Group); ok {
+			for _, h := range g.Methods {
+				blocks = append(blocks, flatHTTP{h, g.Tags})
+			}
+			continue
+		}
+		blocks = append(blocks, b)
+	}
+	for _, b := range blocks {
+		if fh, ok := b.(flatHTTP); ok {
+			b = fh.h
+		}
 		if h, ok := b.(*HTTP); ok && h.PathS != nil {
 			for _, pp := range pathParams(h.Path) {
 				for _, p := range h.PathS.P {
@@ -398,7 +433,11 @@ func (d *Doc) Expected() *O {
 		}
 		return out
 	}
-	for _, b := range d.Blocks {
+	for _, b := range blocks {
+		var fallback []string
+		if fh, ok := b.(flatHTTP); ok {
+			b, fallback = fh.h, fh.fallback
+		}
 		switch x := b.(type) {
 		case *Info:
 			info = NewO(false)
@@ -453,7 +492,11 @@ func (d *Doc) Expected() *O {
 				}
 				o.Set("pathVariables", NewO(false).Set("schema", pathVarsJSON(obj)))
 			}
-			o.Set("tags", useTags(x.Tags, x.Path, id, "http"))
+			own := x.Tags
+			if len(own) == 0 {
+				own = fallback
+			}
+			o.Set("tags", useTags(own, x.Path, id, "http"))
 			if a := annotation(x.Ann); a != "" {
 				o.Set("annotation", a)
 			}
